@@ -124,4 +124,58 @@ theorem mdvd_hop (cs : List VttW.CapIn) (hne : cs ≠ []) (hok : ∀ c ∈ cs, M
 theorem dfxp_hop_instant (t : Rat) : Dfxp.timeExpr (Fmt.formatTimestamp t '.') = .ok (Srt.msT t) :=
   Dfxp.dfxp_written_stamp t
 
+/-! ### chains as a whole (session 4): bounded loss, order kept, format order irrelevant, any number of passes -/
+
+/-- a chain never moves an instant forward, and never back by a frame (40 ms) or more; by less than a millisecond when no
+    MicroDVD hop is on it -/
+theorem chain_loss_bounded (rs : List Res) (t : Nat) :
+    chain rs t ≤ t ∧ t < chain rs t + 40000 ∧ (Res.frame ∉ rs → t < chain rs t + 1000) := by
+  rw [chain_coarsest]
+  by_cases hf : Res.frame ∈ rs
+  · simp only [hf, if_true, coarsen, not_true_eq_false, false_implies, and_true]; omega
+  · by_cases he : rs = []
+    · simp [he]
+    · simp only [hf, he, if_false, coarsen, not_false_eq_true, true_implies]; omega
+
+/-- a chain keeps instants in order: a cue that starts before it ends, or before the next one starts, still does -/
+theorem chain_monotone (rs : List Res) (t u : Nat) (h : t ≤ u) : chain rs t ≤ chain rs u := by
+  rw [chain_coarsest, chain_coarsest]
+  by_cases hf : Res.frame ∈ rs
+  · simp only [hf, if_true, coarsen]
+    exact Nat.mul_le_mul_right _ (Nat.div_le_div_right h)
+  · by_cases he : rs = []
+    · simp [he, h]
+    · simp only [hf, he, if_false, coarsen]
+      exact Nat.mul_le_mul_right _ (Nat.div_le_div_right h)
+
+/-- the order of the formats on a chain does not matter, nor how often each occurs: two chains over the same formats
+    bring every instant to the same place -/
+theorem chain_same_formats (rs rs' : List Res) (h : ∀ r, r ∈ rs ↔ r ∈ rs') (t : Nat) : chain rs t = chain rs' t := by
+  rw [chain_coarsest, chain_coarsest]
+  have he : rs = [] ↔ rs' = [] := by
+    constructor
+    · intro e; subst e
+      cases rs' with
+      | nil => rfl
+      | cons a _ => exact absurd ((h a).2 (by simp)) (by simp)
+    · intro e; subst e
+      cases rs with
+      | nil => rfl
+      | cons a _ => exact absurd ((h a).1 (by simp)) (by simp)
+  simp only [h Res.frame, he]
+
+/-- chains compose: running one chain after another is the chain of both -/
+theorem chain_append (rs rs' : List Res) (t : Nat) : chain (rs ++ rs') t = chain rs' (chain rs t) := by
+  simp [chain, List.foldl_append]
+
+/-- instants already on the coarsest grid of a chain are fixed points: no drift for any number of further passes -/
+theorem chain_passes (rs : List Res) (n : Nat) (t : Nat) :
+    chain (List.flatten (List.replicate (n + 1) rs)) t = chain rs t := by
+  induction n generalizing t with
+  | zero => simp [List.replicate]
+  | succ n ih =>
+    rw [List.replicate_succ, List.flatten_cons, chain_append, ih, second_pass_identity]
+
+/-- non-vacuity: SRT, MicroDVD, DFXP from 1.234567 s: frame 30 = 1.2 s; the loss is 34567 us < 40000 us -/
+example : chain [.ms, .frame, .ms] 1234567 = 1200000 := by decide
 end PcVerif.Props.C08
